@@ -204,7 +204,7 @@ def check(rep: vlib.Reporter, prop: Optional[str] = None) -> bool:
             except Exception as ex:  # noqa: BLE001
                 why += f"; the search for a failing input itself failed: {type(ex).__name__}: {str(ex)[:200]}"
             tgt = py2coq.TARGET_BY_NAME[t]
-            what = f"source tie {tgt.file} {tgt.cls}.{tgt.fn} <-> {tgt.model}: {kind}: {why}"
+            what = f"source tie {tgt.file} {tgt.cls + '.' if tgt.cls else ''}{tgt.fn} <-> {tgt.model}: {kind}: {why}"
             if wit is not None:
                 rep.finding(f"srctie:{t}:{json.dumps(wit['input'], sort_keys=True)}",
                             what + f"; the real function and the model differ on {wit['input']}: real {wit['real']!r}",
@@ -523,7 +523,7 @@ def _space_r3(target: str) -> Dict[str, Any]:
             return [out, bool(cmd.step_is_done), bool(reg.error)]
         ty = "(bool * bool * bool * bool) * option (bool * bool * bool)"
         return {"inputs": [{"execute": e, "step_is_done": d, "error": r} for e in outcomes for d in (False, True) for r in (False, True)],
-                "real": real_tw,
+                "real": real_tw, "prefer": lambda i: (i["step_is_done"], i["error"]),      # both registers clear at the start
                 "term": lambda i, o: (f"(({cq_bool(i['execute'] != 'completes')}, {cq_bool(i['execute'] == 'raises KeyboardInterrupt')}, "
                                       f"{cq_bool(i['step_is_done'])}, {cq_bool(i['error'])}), "
                                       + (f"Some ({cq_bool(o[0] == 'returns')}, {cq_bool(o[1])}, {cq_bool(o[2])})" if isinstance(o, list) else "None") + ")"),
@@ -922,7 +922,9 @@ def search(target: str, prop: str = "SrcTie") -> Optional[Dict[str, Any]]:
     if not bad:
         return None
     # the smallest differing input, preferring one without an empty component (an empty uuid set / tuple is a corner case)
-    k = min(bad, key=lambda j: (any(v in ([], "") for v in sp["inputs"][j].values()), len(json.dumps(sp["inputs"][j])), j))
+    prefer = sp.get("prefer", lambda i: 0)
+    k = min(bad, key=lambda j: (prefer(sp["inputs"][j]), any(v in ([], "") for v in sp["inputs"][j].values()),
+                                len(json.dumps(sp["inputs"][j])), j))
     return {"input": sp["inputs"][k], "real": obs[k], "differing_inputs": len(bad), "inputs_tried": len(terms)}
 
 
